@@ -182,6 +182,7 @@ def translate(src_root, want=FORMULA_PARTS):
 import DtsVerif.Props.C04
 import DtsVerif.Model.TimeCoords
 import DtsVerif.Model.Guards
+import DtsVerif.Model.Shift
 import Mathlib.Tactic.Ring
 import Mathlib.Tactic.FieldSimp
 /-! GENERATED by harness/translate.py from the current dts_accessor.py — do not edit. -/
@@ -889,6 +890,81 @@ def translate_guards(src_root):
     return "\n".join(L) + "\n"
 
 
+# ================================================================================================ shift_double_ended
+def translate_shift(src_root):
+    """`shift_double_ended`: the slices taken from the forward-type arrays (st, ast, x) and the backward-type arrays (rst, rast)
+    in both branches, proved to be `Shift.shift` (Python slice semantics = `Py.pySlice`, trusted rule)"""
+    tree = ast.parse((Path(src_root) / "dtscalibration" / "dts_accessor_utils.py").read_text())
+    fn = None
+    for node in ast.walk(tree):
+        if isinstance(node, ast.FunctionDef) and node.name == "shift_double_ended":
+            fn = node
+    if fn is None:
+        raise Untranslatable("shift_double_ended not found")
+    env = {}
+    branch = None
+    for st in fn.body:
+        if isinstance(st, ast.Assign) and len(st.targets) == 1 and isinstance(st.targets[0], ast.Name) and st.targets[0].id in ("nx", "nx2"):
+            env[st.targets[0].id] = st.value
+        if isinstance(st, ast.If) and ast.unparse(st.test) == "i_shift < 0":
+            branch = st
+            break
+    if branch is None or ast.unparse(env.get("nx", ast.Constant(0))) != "ds.x.size":
+        raise Untranslatable("shift_double_ended: `nx = ds.x.size` / `if i_shift < 0` not found")
+
+    def bound(n):
+        if n is None:
+            return "none"
+        return f"(some {iexpr(n)})"
+
+    def iexpr(n):
+        if isinstance(n, ast.Name) and n.id == "i_shift":
+            return "i"
+        if isinstance(n, ast.Name) and n.id == "nx":
+            return "(fwd.length : Int)"
+        if isinstance(n, ast.Name) and n.id in env:
+            return iexpr(env[n.id])
+        if isinstance(n, ast.UnaryOp) and isinstance(n.op, ast.USub):
+            return f"(-{iexpr(n.operand)})"
+        if isinstance(n, ast.BinOp) and isinstance(n.op, (ast.Sub, ast.Add)):
+            return f"({iexpr(n.left)} {'-' if isinstance(n.op, ast.Sub) else '+'} {iexpr(n.right)})"
+        raise Untranslatable(f"shift_double_ended: slice bound outside the fragment: {ast.unparse(n)}")
+
+    def slices(body):
+        got = {}
+        for st in body:
+            if not (isinstance(st, ast.Assign) and len(st.targets) == 1 and isinstance(st.targets[0], ast.Name)):
+                raise Untranslatable(f"shift_double_ended: statement outside the fragment: {ast.unparse(st)[:60]}")
+            v = st.value
+            if not (isinstance(v, ast.Subscript) and isinstance(v.slice, ast.Slice) and v.slice.step is None):
+                raise Untranslatable(f"shift_double_ended: not a plain slice: {ast.unparse(v)[:60]}")
+            base = ast.unparse(v.value).replace("'", '"')
+            name = st.targets[0].id
+            src_name = {"st": "st", "ast": "ast", "rst": "rst", "rast": "rast", "x2": "x"}.get(name)
+            if src_name is None or base not in (f"ds.{src_name}.data", f'ds["{src_name}"].data'):
+                raise Untranslatable(f"shift_double_ended: `{name}` is sliced from `{base}`")
+            got[name] = (bound(v.slice.lower), bound(v.slice.upper))
+        if sorted(got) != ["ast", "rast", "rst", "st", "x2"]:
+            raise Untranslatable(f"shift_double_ended: slices found for {sorted(got)}")
+        if not (got["st"] == got["ast"] == got["x2"]) or got["rst"] != got["rast"]:
+            raise Untranslatable(f"shift_double_ended: arrays of one direction are sliced differently: {got}")
+        return got["st"], got["rst"]
+
+    (fn_lo, fn_hi), (bn_lo, bn_hi) = slices(branch.body)
+    (fp_lo, fp_hi), (bp_lo, bp_hi) = slices(branch.orelse)
+    # the new data set is assembled from exactly these
+    src = ast.unparse(fn).replace("'", '"')
+    if 'new_data = (("st", st), ("ast", ast), ("rst", rst), ("rast", rast))' not in src or 'd2_coords["x"] = xr.DataArray(data=x2' not in src:
+        raise Untranslatable("shift_double_ended: the result is no longer assembled from st, ast, rst, rast, x2")
+    L = ["\nnamespace DtsVerif.GenShift\nopen DtsVerif.Py DtsVerif.Shift\n",
+         "def shiftG {α} (fwd bwd : List α) (i : Int) : List α × List α :=",
+         f"  if i < 0 then (pySlice fwd {fn_lo} {fn_hi}, pySlice bwd {bn_lo} {bn_hi})",
+         f"  else (pySlice fwd {fp_lo} {fp_hi}, pySlice bwd {bp_lo} {bp_hi})",
+         "theorem shiftG_eq {α} (fwd bwd : List α) (i : Int) : shiftG fwd bwd i = shift fwd bwd i := by\n  unfold shiftG shift\n  split <;> rfl",
+         "\nend DtsVerif.GenShift"]
+    return "\n".join(L) + "\n"
+
+
 # which generated sections tie which property's model to the source (a broken section is reported only for these)
 SECTIONS = {
     "C04": dict(formulas=("temps",), extra=("layout",)),
@@ -897,6 +973,7 @@ SECTIONS = {
     "C08": dict(formulas=("temps", "mc"), extra=("mcunpack",)),
     "C12": dict(formulas=(), extra=("time",)),
     "C19": dict(formulas=(), extra=("guards",)),
+    "C14": dict(formulas=(), extra=("shift",)),
 }
 
 
@@ -913,12 +990,14 @@ def translate_for(prop, src_root):
             text += translate_time(src_root)
         elif e == "guards":
             text += translate_guards(src_root)
+        elif e == "shift":
+            text += translate_shift(src_root)
     return text, names
 
 
 def translate_all(src_root):
     text, names = translate(src_root)
-    return text + translate_layout(src_root) + translate_time(src_root) + translate_guards(src_root), names
+    return text + translate_layout(src_root) + translate_time(src_root) + translate_guards(src_root) + translate_shift(src_root), names
 
 
 if __name__ == "__main__":
